@@ -1,5 +1,6 @@
 (* Props/C08.v — property C08: fail-fast. *)
-From CV Require Import Model.Base Model.Events Model.Sched Proofs.BaseP Proofs.SchedP Proofs.SchedP2 Proofs.SchedP3.
+From CV Require Import Model.Base Model.Events Model.Contract Model.Sched Proofs.BaseP Proofs.SchedP Proofs.SchedP2 Proofs.SchedP3
+  Proofs.SchedP4 Proofs.SchedP7.
 
 (* the drain of finished-messages trips the flow exactly on a final (not retried) failure ... *)
 Theorem C08_trips_on_final_failure :
@@ -27,3 +28,24 @@ Proof. exact loop_top_break. Qed.
 Theorem C08_same_if_no_failure :
   forall K ls, Forall harmless ls -> exec (mk_cfg K true) ls = exec (mk_cfg K false) ls.
 Proof. intros K ls H. apply ff_irrelevant_without_failures; [constructor | exact H]. Qed.
+
+(* a tripped run still ends properly: when the loop has ended — with a broken flow, scenarios left in the queues and
+   retries pending — everything that was started has finished and every opened Feature / Rule bracket has been closed
+   (finish_all_rules_and_features) before run-Finished: the stream is a complete run of the contract automaton *)
+Theorem C08_tripped_run_closes_properly :
+  forall K ls s tr, exec (mk_cfg K true) ls = Some (s, tr) -> NoDup (feature_ids ls) -> NoDup (inserted_ids ls) ->
+    pc s = Done -> contract tr = true.
+Proof. intros K ls s tr H N1 N2 D. exact (proj2 (exec_satisfies_contract _ ls s tr H N1 N2) D). Qed.
+Print Assumptions C08_tripped_run_closes_properly.
+
+(* the premises are met by a fail-fast run that trips with a scenario still queued *)
+Example C08_tripped_nonvacuous :
+  let f := mk_sfeature 1 [mk_sscen 11 None false None; mk_sscen 12 None false None; mk_sscen 13 None false None] 0 3 in
+  let ls := [LFeature f; LParserEnd; LTop; LAttStart (11, 0); LAttStart (12, 0); LAttEnd (11, 0) true; LTop;
+             LAttEnd (12, 0) false; LTop] in
+  match exec (mk_cfg (Some 2%nat) true) ls with
+  | Some (s, tr) => (match pc s with Done => true | _ => false end, match flow s with Break => true | _ => false end,
+                     N.of_nat (length (qC s)), contract tr)
+  | None => (false, false, 0, false)
+  end = (true, true, 1, true).
+Proof. vm_compute. reflexivity. Qed.
